@@ -11,3 +11,15 @@ pub open spec fn strip_name(name: Seq<char>, prefixes: Seq<Seq<char>>, k: int) -
 }
 pub open spec fn str_views(v: Seq<String>) -> Seq<Seq<char>> { v.map_values(|s: String| s@) }
 pub open spec fn str_slices(v: Seq<&str>) -> Seq<Seq<char>> { v.map_values(|s: &str| s@) }
+/// the prefixes named explicitly among the first k options ("~" asks for the computed common prefix instead)
+pub open spec fn explicit_prefixes(ps: Seq<&str>, k: int) -> Seq<Seq<char>>
+    decreases k
+{
+    if k <= 0 { Seq::empty() } else if ps[k - 1]@ == "~"@ { explicit_prefixes(ps, k - 1) } else { explicit_prefixes(ps, k - 1).push(ps[k - 1]@) }
+}
+pub open spec fn has_tilde(ps: Seq<&str>, k: int) -> bool { exists|j: int| 0 <= j < k && (#[trigger] ps[j])@ == "~"@ }
+/// the list strip_prefixes receives: the explicit prefixes in option order, then at most one computed prefix, and that only when "~" was given
+pub open spec fn prefix_list_ok(pfx: Seq<Seq<char>>, opts: Seq<&str>) -> bool {
+    pfx == explicit_prefixes(opts, opts.len() as int)
+    || (has_tilde(opts, opts.len() as int) && pfx.len() > 0 && pfx.drop_last() == explicit_prefixes(opts, opts.len() as int))
+}
